@@ -488,6 +488,190 @@ func inspectFunc(fd *ast.FuncDecl) finfo {
 	return fi
 }
 
+
+// ---- basicAuthHandler: the decision logic ----
+//
+// Recognised shape (anything else is an error):
+//
+//	func basicAuthHandler(credentials map[string]string, h http.Handler) http.Handler {
+//		if credentials == nil { return h }
+//		wrap := func(w http.ResponseWriter, r *http.Request) {
+//			w.Header().Set(...)
+//			username, password, ok := r.BasicAuth()
+//			if !ok { <refusal> }
+//			authorized := false
+//			for u, p := range credentials { if <cond over u==username, p==password, &&, ||> { authorized = true } }
+//			if !authorized { <refusal> }
+//			h.ServeHTTP(w, r)
+//		}
+//		return http.HandlerFunc(wrap)
+//	}
+//
+// <refusal> = resp, err := unauthorizedResp(); if err != nil { logger.Error(err); return }; http.Error(w, resp, http.StatusXxx); return
+
+type authLogic struct {
+	nilPass    bool
+	okChecked  bool
+	cond       string
+	noHeader   int
+	mismatch   int
+}
+
+var statusCodes = map[string]int{"http.StatusUnauthorized": 401, "http.StatusForbidden": 403}
+
+func refusalStatus(b *ast.BlockStmt, where string) int {
+	if len(b.List) != 4 {
+		die("basicAuthHandler: %s: refusal block has %d statements", where, len(b.List))
+	}
+	as, ok := b.List[0].(*ast.AssignStmt)
+	if !ok || len(as.Lhs) != 2 || render(as.Lhs[0]) != "resp" || render(as.Lhs[1]) != "err" || render(as.Rhs[0]) != "unauthorizedResp()" {
+		die("basicAuthHandler: %s: refusal does not start with resp, err := unauthorizedResp()", where)
+	}
+	ifs, ok := b.List[1].(*ast.IfStmt)
+	if !ok || render(ifs.Cond) != "err!=nil" || ifs.Else != nil || len(ifs.Body.List) != 2 || render(ifs.Body.List[0].(*ast.ExprStmt).X) != "logger.Error(err)" {
+		die("basicAuthHandler: %s: unrecognised error branch in the refusal", where)
+	}
+	if _, ok := ifs.Body.List[1].(*ast.ReturnStmt); !ok {
+		die("basicAuthHandler: %s: error branch does not return", where)
+	}
+	es, ok := b.List[2].(*ast.ExprStmt)
+	if !ok {
+		die("basicAuthHandler: %s: refusal does not call http.Error", where)
+	}
+	ce, ok := es.X.(*ast.CallExpr)
+	if !ok || render(ce.Fun) != "http.Error" || len(ce.Args) != 3 || render(ce.Args[0]) != "w" || render(ce.Args[1]) != "resp" {
+		die("basicAuthHandler: %s: refusal does not call http.Error(w, resp, status)", where)
+	}
+	code, ok := statusCodes[render(ce.Args[2])]
+	if !ok {
+		die("basicAuthHandler: %s: unrecognised refusal status %s", where, render(ce.Args[2]))
+	}
+	if _, ok := b.List[3].(*ast.ReturnStmt); !ok {
+		die("basicAuthHandler: %s: refusal does not return", where)
+	}
+	return code
+}
+
+// authCond renders the loop condition as a Lean AuthCond term.
+func authCond(e ast.Expr, key, val string) string {
+	switch x := e.(type) {
+	case *ast.ParenExpr:
+		return authCond(x.X, key, val)
+	case *ast.BinaryExpr:
+		switch x.Op {
+		case token.LAND:
+			return "(.and " + authCond(x.X, key, val) + " " + authCond(x.Y, key, val) + ")"
+		case token.LOR:
+			return "(.or " + authCond(x.X, key, val) + " " + authCond(x.Y, key, val) + ")"
+		case token.EQL:
+			a, b := render(x.X), render(x.Y)
+			switch {
+			case a == key && b == "username", a == "username" && b == key:
+				return "(.atom .userEq)"
+			case a == val && b == "password", a == "password" && b == val:
+				return "(.atom .passEq)"
+			}
+			die("basicAuthHandler: unrecognised comparison %s == %s", a, b)
+		}
+	}
+	die("basicAuthHandler: unrecognised condition %s", render(e))
+	return ""
+}
+
+func extractAuth(f *ast.File) authLogic {
+	fd := findFunc(f, "basicAuthHandler", false)
+	if fd == nil {
+		die("basicAuthHandler not found")
+	}
+	var al authLogic
+	if len(fd.Type.Params.List) != 2 || render(fd.Type.Params.List[0].Names[0]) != "credentials" || render(fd.Type.Params.List[1].Names[0]) != "h" {
+		die("basicAuthHandler: unrecognised parameters")
+	}
+	if mt, ok := fd.Type.Params.List[0].Type.(*ast.MapType); !ok || render(mt.Key) != "string" || render(mt.Value) != "string" {
+		die("basicAuthHandler: credentials is not a map[string]string")
+	}
+	body := fd.Body.List
+	if len(body) != 3 {
+		die("basicAuthHandler: %d top-level statements", len(body))
+	}
+	ifs, ok := body[0].(*ast.IfStmt)
+	if !ok || render(ifs.Cond) != "credentials==nil" || ifs.Else != nil || len(ifs.Body.List) != 1 {
+		die("basicAuthHandler: does not start with `if credentials == nil { return h }`")
+	}
+	if rs, ok := ifs.Body.List[0].(*ast.ReturnStmt); !ok || len(rs.Results) != 1 || render(rs.Results[0]) != "h" {
+		die("basicAuthHandler: nil credentials do not return h")
+	}
+	al.nilPass = true
+	as, ok := body[1].(*ast.AssignStmt)
+	if !ok || render(as.Lhs[0]) != "wrap" {
+		die("basicAuthHandler: second statement is not wrap := func…")
+	}
+	fl, ok := as.Rhs[0].(*ast.FuncLit)
+	if !ok {
+		die("basicAuthHandler: wrap is not a function literal")
+	}
+	if rs, ok := body[2].(*ast.ReturnStmt); !ok || render(rs.Results[0]) != "http.HandlerFunc(wrap)" {
+		die("basicAuthHandler: does not return http.HandlerFunc(wrap)")
+	}
+	st := fl.Body.List
+	if len(st) != 7 {
+		die("basicAuthHandler: wrap has %d statements, expected 7", len(st))
+	}
+	if es, ok := st[0].(*ast.ExprStmt); !ok || !strings.HasPrefix(render(es.X), "w.Header().Set(") {
+		die("basicAuthHandler: wrap[0] is not w.Header().Set(…)")
+	}
+	ba, ok := st[1].(*ast.AssignStmt)
+	if !ok || len(ba.Lhs) != 3 || render(ba.Lhs[0]) != "username" || render(ba.Lhs[1]) != "password" || render(ba.Lhs[2]) != "ok" || render(ba.Rhs[0]) != "r.BasicAuth()" {
+		die("basicAuthHandler: wrap[1] is not username, password, ok := r.BasicAuth()")
+	}
+	okIf, ok := st[2].(*ast.IfStmt)
+	if !ok || render(okIf.Cond) != "!ok" || okIf.Else != nil {
+		die("basicAuthHandler: wrap[2] is not `if !ok {…}`")
+	}
+	al.okChecked = true
+	al.noHeader = refusalStatus(okIf.Body, "if !ok")
+	az, ok := st[3].(*ast.AssignStmt)
+	if !ok || render(az.Lhs[0]) != "authorized" || render(az.Rhs[0]) != "false" {
+		die("basicAuthHandler: wrap[3] is not authorized := false")
+	}
+	rg, ok := st[4].(*ast.RangeStmt)
+	if !ok || render(rg.X) != "credentials" || rg.Key == nil || rg.Value == nil {
+		die("basicAuthHandler: wrap[4] is not `for u, p := range credentials`")
+	}
+	key, val := render(rg.Key), render(rg.Value)
+	if len(rg.Body.List) != 1 {
+		die("basicAuthHandler: loop body has %d statements", len(rg.Body.List))
+	}
+	li, ok := rg.Body.List[0].(*ast.IfStmt)
+	if !ok || li.Else != nil || li.Init != nil || len(li.Body.List) != 1 {
+		die("basicAuthHandler: loop body is not a single if")
+	}
+	if set, ok := li.Body.List[0].(*ast.AssignStmt); !ok || render(set.Lhs[0]) != "authorized" || render(set.Rhs[0]) != "true" || set.Tok != token.ASSIGN {
+		die("basicAuthHandler: the loop does something other than authorized = true")
+	}
+	al.cond = authCond(li.Cond, key, val)
+	na, ok := st[5].(*ast.IfStmt)
+	if !ok || render(na.Cond) != "!authorized" || na.Else != nil {
+		die("basicAuthHandler: wrap[5] is not `if !authorized {…}`")
+	}
+	al.mismatch = refusalStatus(na.Body, "if !authorized")
+	if es, ok := st[6].(*ast.ExprStmt); !ok || render(es.X) != "h.ServeHTTP(w,r)" {
+		die("basicAuthHandler: wrap does not end with h.ServeHTTP(w, r)")
+	}
+	// the wrapped handler is served nowhere else
+	n := 0
+	ast.Inspect(fd, func(x ast.Node) bool {
+		if ce, ok := x.(*ast.CallExpr); ok && strings.HasSuffix(render(ce.Fun), ".ServeHTTP") {
+			n++
+		}
+		return true
+	})
+	if n != 1 {
+		die("basicAuthHandler: %d ServeHTTP calls", n)
+	}
+	return al
+}
+
 func leanList(l []string) string {
 	qs := make([]string, len(l))
 	for i, s := range l {
@@ -510,6 +694,7 @@ func main() {
 	rs := extractRoutes(f)
 	notFound, mna := extractAddRoutes(f)
 	plain, tracing, strict := extractChain(f)
+	al := extractAuth(f)
 
 	// handlers
 	names := map[string]bool{}
@@ -552,6 +737,9 @@ func main() {
 	b.WriteString("/-- handler wrapping order of NewAPIWithHost, outermost first -/\n")
 	fmt.Fprintf(&b, "def chain : List String := %s\n", leanList(plain))
 	fmt.Fprintf(&b, "def chainTracing : List String := %s\n\n", leanList(tracing))
+	b.WriteString("/-- the decision logic of basicAuthHandler -/\n")
+	fmt.Fprintf(&b, "def authLogic : AuthLogic :=\n  { nilPassThrough := %v, okChecked := %v, cond := %s, noHeaderStatus := %d, mismatchStatus := %d }\n\n",
+		al.nilPass, al.okChecked, al.cond, al.noHeader, al.mismatch)
 	b.WriteString("/-- per handler function: the (\"Service.Method\") RPC calls in its body (source order) and the parse helpers it calls -/\n")
 	b.WriteString("def handlerInfo : List (String × List String × List String) := [\n")
 	for i, n := range hn {
